@@ -14,12 +14,14 @@ LEX_ALPHABET = {
 }
 
 
-def canonical(ctx, per_lang, salt="canon"):
+def canonical(ctx, per_lang, salt="canon", stubs=False):
+    """`stubs`: also emit one-line defs (headers without a suite) in Python programs - only for
+    streams that compare two scans with each other (no expectation exists for them)"""
     rnd = ctx.rng(salt)
     out = []
     for lang in LANGS:
         for i in range(per_lang):
-            o = programs.generate(lang, rnd)
+            o = programs.generate(lang, rnd, stubs=stubs)
             out.append((lang, o.text(rnd.random() < 0.8), o))
     return out
 
